@@ -361,6 +361,8 @@ func (ctx *Ctx) get(path []byte) any {
 	// So, path user.Bio.Birthday will convert to []string{"user", "Bio", "Birthday"}
 	ctx.bufS = ctx.bufS[:0]
 	ctx.bufS = bytealg.AppendSplitString(ctx.bufS, byteconv.B2S(path), ".", -1)
+	// Square brackets replacement may have left index value in the buffer.
+	ctx.bufX = nil
 	if len(ctx.bufS) == 0 {
 		return nil
 	}
